@@ -131,6 +131,32 @@ def binary(x, success=None):
     return np.where(booleans, 1, 0)
 
 
+@register_stateful_transform
+class Binary:
+    """Stateful version of :func:`binary`, the one used in model formulas.
+
+    It remembers the success level found (or given) the first time it is called, so new data is
+    compared against the same level even if that level is the smallest one only in the original
+    data, or does not show up in the new data at all.
+    """
+
+    __transform_name__ = "binary"
+
+    def __init__(self):
+        self.params_set = False
+        self.success = None
+
+    def __call__(self, x, success=None):
+        if not self.params_set:
+            if success is None:
+                success = sorted(x.unique().tolist())[0]
+            # Raises if no value is equal to 'success'
+            binary(x, success)
+            self.success = success
+            self.params_set = True
+        return np.where(x == self.success, 1, 0)
+
+
 class Proportion:
     """Representation of a proportion term.
 
@@ -428,8 +454,7 @@ class Polynomial:
 
 TRANSFORMS.update(
     {
-        "B": binary,
-        "binary": binary,
+        "B": Binary,
         "C": C,
         "I": I,
         "offset": offset,
